@@ -9,6 +9,7 @@ package main
 
 import (
 	"encoding/json"
+	"errors"
 	"fmt"
 	"io"
 	"net/http"
@@ -41,11 +42,14 @@ type upstream struct {
 	probes    int
 	reviews   int
 	forwarded []int // sequence numbers of the forwarded requests received
+	twin      []int // ... of those for the second policy (resource r1)
+	holding   int           // requests that arrived with X-Verif-Hold and are being kept open
+	gate      chan struct{} // closed to let them finish
 }
 
 func (u *upstream) ServeHTTP(w http.ResponseWriter, r *http.Request) {
 	switch {
-	case r.URL.Path == "/healthz":
+	case strings.HasSuffix(r.URL.Path, "/healthz"):
 		u.mu.Lock()
 		u.probes++
 		code := u.healthz
@@ -68,7 +72,21 @@ func (u *upstream) ServeHTTP(w http.ResponseWriter, r *http.Request) {
 		fmt.Sscanf(r.Header.Get("X-Verif-Seq"), "%d", &seq)
 		u.mu.Lock()
 		u.forwarded = append(u.forwarded, seq)
+		if strings.Contains(r.URL.Path, "/r1/") {
+			u.twin = append(u.twin, seq)
+		}
+		var gate chan struct{}
+		if r.Header.Get("X-Verif-Hold") != "" {
+			u.holding++
+			gate = u.gate
+		}
 		u.mu.Unlock()
+		if gate != nil { // keep the request in flight until the harness lets go
+			select {
+			case <-gate:
+			case <-time.After(20 * time.Second):
+			}
+		}
 		w.Header().Set("Content-Type", "application/json")
 		io.WriteString(w, `{"kind":"PodList","apiVersion":"v1","metadata":{},"items":[]}`)
 	}
@@ -98,13 +116,24 @@ type E2E struct {
 	Token    bool     `json:"token"`    // requests carry a bearer token (TokenReview -> PickOne) instead of needing no upstream client
 	N        int      `json:"n"`        // sequential requests
 	ProbeGap int      `json:"probe_gap"` // a health probe of some endpoint after every ProbeGap requests (0: none)
+	// Limit: the policy uses a flow-control schema with maxRequestsInflight = 1, and the limit is hit: for every entry r of
+	// Cycles one request is kept open at its upstream, r further requests are sent meanwhile (answered 429, NOT forwarded),
+	// it is let go, one more request follows. Only what is forwarded may move the policy's cursor.
+	Limit  bool  `json:"limit"`
+	Cycles []int `json:"cycles"`
+	// Twin: a second policy (resource r1) with the SAME upstreamSubset; the plain requests alternate between the two policies
+	// and each policy's forwarded traffic is judged on its own. Judged when the code gives every policy its own cursors.
+	Twin bool `json:"twin"`
 }
 
 type E2ESrv struct {
 	Up      int  `json:"up"`
 	Dis     bool `json:"dis"`
 	Healthz int  `json:"healthz"`
+	Sp      int  `json:"sp"` // spelling of the endpoint in servers and in the subset: 0 the plain URL, 1 "/", 2 "/Base", 3 "/API/"
 }
+
+var e2eSpell = []string{"", "/", "/Base", "/API/"}
 
 func readableE2E(cs Case) string {
 	e := cs.E2E
@@ -117,16 +146,31 @@ func readableE2E(cs Case) string {
 		if s.Healthz != 200 {
 			n += fmt.Sprintf("(healthz %d)", s.Healthz)
 		}
+		if s.Sp != 0 {
+			n += fmt.Sprintf("%q", e2eSpell[s.Sp%len(e2eSpell)])
+		}
 		sv = append(sv, n)
 	}
 	auth := "an authenticator that needs no upstream client"
 	if e.Token {
 		auth = "bearer-token authentication (TokenReview -> Manager.ClientFor -> PickOne)"
 	}
-	return fmt.Sprintf("real handler chain, servers %v, policy subset %v, %d sequential requests with %s, a health probe after every %d requests", sv, e.Subset, e.N, auth, e.ProbeGap)
+	lim := ""
+	if e.Limit {
+		lim = fmt.Sprintf("; first, with maxRequestsInflight=1 on the policy: per cycle one request kept in flight, r requests answered 429 meanwhile, one more after it, r = %v", e.Cycles)
+	}
+	if e.Twin {
+		lim += "; a second policy with the same subset, the plain requests alternate between the two (judged per policy when policies have their own cursors)"
+	}
+	return fmt.Sprintf("real handler chain, servers %v, policy subset %v, %d sequential requests with %s, a health probe after every %d requests%s", sv, e.Subset, e.N, auth, e.ProbeGap, lim)
 }
 
-func runE2E(c *rig.Ctx, cs Case, record bool, inf *info) bool {
+func runE2E(c *rig.Ctx, cs Case, record bool, inf *info) (ok bool) {
+	defer func() {
+		if inf.kind != "" {
+			ok = false
+		}
+	}()
 	fail := func(kind, class, what string, impl interface{}) bool {
 		inf.kind, inf.class = kind, class
 		inf.failure = &rig.Failure{Kind: kind, Class: class, What: what + " | case: " + readableE2E(cs), Case: cs, Impl: impl}
@@ -145,11 +189,17 @@ func runE2E(c *rig.Ctx, cs Case, record bool, inf *info) bool {
 	}
 	for _, u := range ups {
 		u.mu.Lock()
-		u.healthz, u.probes, u.reviews, u.forwarded = 200, 0, 0, nil
+		u.healthz, u.probes, u.reviews, u.forwarded, u.holding, u.gate = 200, 0, 0, nil, 0, nil
+		u.twin = nil
 		u.mu.Unlock()
 	}
 	// the spec in the vocabulary of the model
-	hex := func(i int) string { return rig.Hex(ups[i%len(ups)].url) }
+	spellOf := map[int]string{}
+	for _, s := range e.Servers {
+		spellOf[s.Up%len(ups)] = e2eSpell[s.Sp%len(e2eSpell)]
+	}
+	nameOf := func(i int) string { return ups[i%len(ups)].url + spellOf[i%len(ups)] }
+	hex := func(i int) string { return rig.Hex(nameOf(i)) }
 	var servers []lib.Server
 	var up []lib.UpEnt
 	for _, s := range e.Servers {
@@ -163,18 +213,38 @@ func runE2E(c *rig.Ctx, cs Case, record bool, inf *info) bool {
 	for _, i := range e.Subset {
 		subset = append(subset, hex(i))
 	}
+	twin := e.Twin && (lib.PolicyScopes() || c.Search)
 	setup := []lib.Op{{Op: "sync", Servers: servers, Policies: [][]string{subset}, Up: up}}
+	if twin {
+		setup[0].Policies = [][]string{subset, subset}
+	}
+	if e.Limit {
+		setup[0].Extra = lib.ExtraLimitOne
+	}
 	w := lib.NewWorld()
 	w.Timeout = quiesceTimeout
 	w.HealthFn = controllers.GatewayHealthCheck
 	defer w.Stop()
+	var setupDiff *lib.SetupMismatch
 	if _, err := lib.Play(c, w, append([]lib.Op{}, setup...)); err != nil {
 		if w.IsInconclusive() {
 			c.Count("e2e-inconclusive")
 			return true
 		}
-		return fail("diff", "c14.setup", "set-up: "+err.Error(), nil)
+		if !errors.As(err, &setupDiff) {
+			return fail("diff", "c14.setup", "set-up: "+err.Error(), nil)
+		}
 	}
+	defer func() {
+		// the set-up differed from the model: reported unless the property itself was found to fail
+		if setupDiff != nil && inf.kind != "judge" {
+			inf.kind, inf.class = "diff", "c14.setup"
+			inf.failure = &rig.Failure{Kind: "diff", Class: "c14.setup", What: "set-up: " + setupDiff.What + " | case: " + readableE2E(cs), Case: cs}
+			if record {
+				c.Fail(*inf.failure)
+			}
+		}
+	}()
 	// the gateway: real manager, real authenticator, real handler chain
 	manager := clusters.NewManager()
 	manager.Add(w.CI)
@@ -210,19 +280,97 @@ func runE2E(c *rig.Ctx, cs Case, record bool, inf *info) bool {
 			eps = append(eps, ep)
 		}
 	}
-	for i := 0; i < e.N; i++ {
-		req, _ := http.NewRequest(http.MethodGet, gateway.URL+"/api/v1/namespaces/default/r0/x", nil)
+	do := func(seq int, hold bool) (int, string, error) {
+		res := "r0"
+		if twin && !hold && seq < e.N && seq%2 == 1 {
+			res = "r1" // the plain requests alternate between the two policies
+		}
+		req, _ := http.NewRequest(http.MethodGet, gateway.URL+"/api/v1/namespaces/default/"+res+"/x", nil)
 		req.Host = "c"
-		req.Header.Set("X-Verif-Seq", fmt.Sprint(i))
+		req.Header.Set("X-Verif-Seq", fmt.Sprint(seq))
+		if hold {
+			req.Header.Set("X-Verif-Hold", "1")
+		}
 		if e.Token {
 			req.Header.Set("Authorization", "Bearer some-token")
 		}
 		resp, err := client.Do(req)
 		if err != nil {
-			return fail("diff", "c14.e2e-request", fmt.Sprintf("request %d: %v", i, err), nil)
+			return 0, "", err
 		}
 		body, _ := io.ReadAll(resp.Body)
 		resp.Body.Close()
+		return resp.StatusCode, string(body), nil
+	}
+	// the limit is hit: requests answered 429 between forwarded ones
+	rejected, seqNo := 0, e.N
+	if e.Limit {
+		for _, rj := range e.Cycles {
+			gate := make(chan struct{})
+			held := 0
+			for _, u := range ups {
+				u.mu.Lock()
+				u.gate = gate
+				held += u.holding
+				u.mu.Unlock()
+			}
+			type ans struct {
+				code int
+				err  error
+			}
+			heldDone := make(chan ans, 1)
+			go func(seq int) {
+				code, _, err := do(seq, true)
+				heldDone <- ans{code, err}
+			}(seqNo)
+			seqNo++
+			deadline := time.Now().Add(10 * time.Second)
+			for {
+				now := 0
+				for _, u := range ups {
+					u.mu.Lock()
+					now += u.holding
+					u.mu.Unlock()
+				}
+				if now > held {
+					break
+				}
+				if time.Now().After(deadline) {
+					close(gate)
+					return fail("diff", "c14.e2e-request", "the request that is to be kept in flight did not arrive at an upstream", nil)
+				}
+				time.Sleep(50 * time.Microsecond)
+			}
+			for j := 0; j < rj; j++ {
+				code, body, err := do(seqNo, false)
+				seqNo++
+				if err != nil || code != http.StatusTooManyRequests {
+					close(gate)
+					<-heldDone
+					return fail("diff", "c14.e2e-request", fmt.Sprintf("a request beyond maxRequestsInflight=1 was answered %d (%v): %.150s", code, err, body), nil)
+				}
+				rejected++
+			}
+			close(gate)
+			if a := <-heldDone; a.err != nil || a.code != http.StatusOK {
+				return fail("diff", "c14.e2e-request", fmt.Sprintf("the request kept in flight ended with %d (%v)", a.code, a.err), nil)
+			}
+			if code, body, err := do(seqNo, false); err != nil || code != http.StatusOK {
+				return fail("diff", "c14.e2e-request", fmt.Sprintf("after the slot was free again a request was answered %d (%v): %.150s", code, err, body), nil)
+			}
+			seqNo++
+		}
+	}
+	expectForwarded := e.N
+	if e.Limit {
+		expectForwarded += 2 * len(e.Cycles)
+	}
+	for i := 0; i < e.N; i++ {
+		code, body, err := do(i, false)
+		if err != nil {
+			return fail("diff", "c14.e2e-request", fmt.Sprintf("request %d: %v", i, err), nil)
+		}
+		resp := struct{ StatusCode int }{code}
 		if resp.StatusCode != http.StatusOK {
 			if i == 0 && resp.StatusCode == http.StatusServiceUnavailable {
 				break // nothing is ready in this configuration: judged below (no forwarded request may exist)
@@ -249,12 +397,12 @@ func runE2E(c *rig.Ctx, cs Case, record bool, inf *info) bool {
 	}
 	// where did the requests arrive?
 	recv := map[string]int{}
-	order := make([]string, e.N)
+	order := make([]string, seqNo)
 	total := 0
 	for _, u := range ups {
 		u.mu.Lock()
 		for _, seq := range u.forwarded {
-			if seq >= 0 && seq < e.N {
+			if seq >= 0 && seq < seqNo {
 				order[seq] = u.url
 			}
 			recv[u.url]++
@@ -267,7 +415,13 @@ func runE2E(c *rig.Ctx, cs Case, record bool, inf *info) bool {
 		if urlOf == "" {
 			continue
 		}
-		if ep, ok := w.CI.Endpoints.Load(urlOf); ok {
+		spelled := urlOf
+		for i, u := range ups {
+			if u.url == urlOf {
+				spelled = nameOf(i)
+			}
+		}
+		if ep, ok := w.CI.Endpoints.Load(spelled); ok {
 			outs = append(outs, &lib.OutJ{Ok: w.Ident(ep)})
 		} else {
 			outs = append(outs, &lib.OutJ{Ok: lib.Ident{N: rig.Hex(urlOf), Gen: -1}})
@@ -277,16 +431,58 @@ func runE2E(c *rig.Ctx, cs Case, record bool, inf *info) bool {
 		outs = []*lib.OutJ{}
 	}
 	inf.n += total
+	if twin {
+		// each policy's forwarded traffic on its own
+		isTwin := map[int]bool{}
+		for _, u := range ups {
+			u.mu.Lock()
+			for _, seq := range u.twin {
+				isTwin[seq] = true
+			}
+			u.mu.Unlock()
+		}
+		for pol := 0; pol < 2; pol++ {
+			var mine []*lib.OutJ
+			for seq, urlOf := range order {
+				if urlOf == "" || isTwin[seq] != (pol == 1) {
+					continue
+				}
+				spelled := urlOf
+				for i, u := range ups {
+					if u.url == urlOf {
+						spelled = nameOf(i)
+					}
+				}
+				if ep, ok := w.CI.Endpoints.Load(spelled); ok {
+					mine = append(mine, &lib.OutJ{Ok: w.Ident(ep)})
+				}
+			}
+			if mine == nil {
+				mine = []*lib.OutJ{}
+			}
+			var pm windowReply
+			if err := c.Model("C14.window", map[string]interface{}{"policy_scopes": lib.PolicyScopes(), "setup": setup, "subset": subset, "d": 24, "impl": mine}, &pm); err != nil {
+				return fail("diff", "c14.model-error", "model error "+err.Error(), nil)
+			}
+			if pm.Bad != nil && len(subset) > 0 {
+				cnt := make([]string, len(pm.Counts))
+				for i, x := range pm.Counts {
+					cnt[i] = fmt.Sprintf("%s=%d", rig.UnHex(x.ID.N), x.Count)
+				}
+				return fail("judge", "c14.policies-share-cursor", fmt.Sprintf("two policies list the same upstreamSubset and their requests alternate: policy %d forwarded %d requests, received: %s — not floor/ceil: the policy does not rotate through ITS endpoints", pol, len(mine), strings.Join(cnt, " ")), recv)
+			}
+		}
+	}
 	// the ready set of the configuration (through the model), and the counting judges on what the servers received
 	kfact := 1
 	var m windowReply
-	if err := c.Model("C14.window", map[string]interface{}{"setup": setup, "subset": subset, "d": 1, "impl": []interface{}{}}, &m); err != nil {
+	if err := c.Model("C14.window", map[string]interface{}{"policy_scopes": lib.PolicyScopes(), "setup": setup, "subset": subset, "d": 1, "impl": []interface{}{}}, &m); err != nil {
 		return fail("diff", "c14.model-error", "model error "+err.Error(), nil)
 	}
 	for i := 2; i <= m.K; i++ {
 		kfact *= i
 	}
-	if err := c.Model("C14.window", map[string]interface{}{"setup": setup, "subset": subset, "d": kfact, "impl": outs}, &m); err != nil {
+	if err := c.Model("C14.window", map[string]interface{}{"policy_scopes": lib.PolicyScopes(), "setup": setup, "subset": subset, "d": kfact, "impl": outs}, &m); err != nil {
 		return fail("diff", "c14.model-error", "model error "+err.Error(), nil)
 	}
 	if m.K > inf.maxK {
@@ -297,29 +493,36 @@ func runE2E(c *rig.Ctx, cs Case, record bool, inf *info) bool {
 	for i, x := range m.Counts {
 		counts[i] = fmt.Sprintf("%s=%d", rig.UnHex(x.ID.N), x.Count)
 	}
-	summary := fmt.Sprintf("%d requests were forwarded; the configuration has %d ready endpoints %s; received: %s", total, m.K, idents(m.Members), strings.Join(counts, " "))
+	if rejected > 0 {
+		defer func() { _ = rejected }()
+	}
+	summary := fmt.Sprintf("%d requests were answered 429 (maxRequestsInflight=1 was hit) and not forwarded; ", rejected)
+	if rejected == 0 {
+		summary = ""
+	}
+	summary += fmt.Sprintf("%d requests were forwarded; the configuration has %d ready endpoints %s; received: %s", total, m.K, idents(m.Members), strings.Join(counts, " "))
 	if m.K == 0 {
 		if total > 0 {
 			return fail("judge", "c14.stray", "requests were forwarded although no endpoint of the policy is ready: "+summary, recv)
 		}
 		return true
 	}
-	if total != e.N {
-		return fail("diff", "c14.e2e-request", fmt.Sprintf("%d requests answered 200 but %d arrived at the upstream servers", e.N, total), recv)
+	if total != expectForwarded {
+		return fail("diff", "c14.e2e-request", fmt.Sprintf("%d requests answered 200 (and %d answered 429) but %d arrived at the upstream servers", expectForwarded, rejected, total), recv)
 	}
 	if m.Strays {
 		return fail("judge", "c14.stray", "a forwarded request arrived at a server that is not a ready endpoint of the policy: "+summary, recv)
 	}
 	// no ready endpoint is starved (sound whatever shares the cursors: a quarter of the fair share is 8 sigma away even when
 	// every pick lands on a random cursor)
-	if m.K >= 2 && e.N >= 200*m.K {
+	if m.K >= 2 && total >= 200*m.K {
 		for _, x := range m.Counts {
-			if x.Count*8*m.K < e.N {
-				return fail("judge", "c14.forwarded-starved", fmt.Sprintf("the ready endpoint %s received %d of %d forwarded requests (fair share %d): %s", rig.UnHex(x.ID.N), x.Count, e.N, e.N/m.K, summary), recv)
+			if x.Count*8*m.K < total {
+				return fail("judge", "c14.forwarded-starved", fmt.Sprintf("the ready endpoint %s received %d of %d forwarded requests (fair share %d): %s", rig.UnHex(x.ID.N), x.Count, total, total/m.K, summary), recv)
 			}
 		}
 	}
-	if m.Bad != nil {
+	if m.Bad != nil && !twin { // (with two policies the traffic is judged per policy above: two cursors, two rotations)
 		bound := "strict round-robin (floor/ceil)"
 		if len(subset) == 0 {
 			bound = fmt.Sprintf("|k*count - N| <= k!*(k-1) = %d", kfact*(m.K-1))
@@ -361,6 +564,18 @@ func genE2E(c *rig.Ctx) Case {
 	default: // the servers in the order of the spec
 		for _, s := range e.Servers {
 			e.Subset = append(e.Subset, s.Up)
+		}
+	}
+	if r.Intn(3) == 0 { // spellings with upper-case letters / trailing slashes, the same in servers and subset
+		for i := range e.Servers {
+			e.Servers[i].Sp = r.Intn(len(e2eSpell))
+		}
+	}
+	e.Twin = r.Intn(4) == 0
+	if r.Intn(3) == 0 { // the policy's limit is hit between forwarded requests
+		e.Limit = true
+		for i, n := 0, 6+r.Intn(20); i < n; i++ {
+			e.Cycles = append(e.Cycles, 1+r.Intn(3))
 		}
 	}
 	e.N = 200*len(e.Servers) + r.Intn(c.Budget(200, 1200))
